@@ -3,39 +3,49 @@ Lockset model for property C10 (concurrent use of one Screen is free of data rac
 
 Two layers.
 
-* **Thread semantics.**  A goroutine is a list of actions `lock | unlock | rd f | wr f | emit b` over ONE exclusive
-  mutex (tscreen.go:181, the embedded `sync.Mutex`; `baseScreen` reaches the same mutex through the embedded
-  `screenImpl`, screen.go:366).  Configurations are maps thread-id → (holds?, critical-section counter, rest of the
-  program) plus the output log (what reached the tty, tagged with the thread and critical section that emitted it).
-  `Step` is the interleaving semantics, `Reach` its reflexive-transitive closure, `Race c f` says two different
-  threads are both about to perform conflicting accesses to field `f` in `c`.
-  What is *axiomatised* rather than derived from the Go memory model: the mutex is the only ordering between
-  threads in the concurrent phase; the happens-before edges of `go`, channel operations, `WaitGroup.Wait` and
-  `sync.Once` only enter through the classification of the facts (init phase / after `wg.Wait`), never through
-  the semantics.  Unlocking a mutex one does not hold (a fatal error or a steal in Go) has no step here.
+* **Thread semantics.**  A goroutine is a list of actions `lock m | unlock m | rd f | wr f | emit b` over ANY NUMBER of
+  exclusive, non-reentrant mutexes (mutex ids are numbers; a thread may hold several).  Mutex 0 is by convention the
+  screen mutex (tscreen.go:181, the embedded `sync.Mutex`; `baseScreen` reaches the same mutex through the embedded
+  `screenImpl`, screen.go:366); the other mutexes are the named `sync.Mutex` fields of the screen types (the
+  `lifecycle` mutex of fix C10-disengage-lifecycle; the translator numbers them in `Gen.LockFacts.mutexNames`).
+  Configurations are maps thread-id → (set of mutexes held, critical-section counter of mutex 0, rest of the program)
+  plus the output log (what reached the tty, tagged with the thread and the screen-mutex critical section that
+  emitted it).  `Step` is the interleaving semantics, `Reach` its reflexive-transitive closure, `Race c f` says two
+  different threads are both about to perform conflicting accesses to field `f` in `c`.
+  What is *axiomatised* rather than derived from the Go memory model: the mutexes are the only ordering between
+  threads in the concurrent phase; the happens-before edges of `go`, channel operations, `WaitGroup.Done → Wait` and
+  `sync.Once` only enter through the classification of the facts (init phase / one live instance of a loop), never
+  through the semantics.  Unlocking a mutex one does not hold (a fatal error or a steal in Go) has no step here;
+  locking a mutex one already holds blocks for ever (Go's mutexes are not reentrant).
 
 * **Facts and discipline.**  `Fact` is one record produced by the translator (harness/cmd/extract/lockfacts.go)
-  for one field access of one entry point; `flaggedOf` is the decidable discipline check the kernel evaluates on the
-  regenerated `Tcell.Gen.LockFacts.facts`.
+  for one field access of one entry point, with the SET of mutexes held at the access; `flaggedOf` is the decidable
+  discipline check the kernel evaluates on the regenerated `Tcell.Gen.LockFacts.facts`: for every field that needs
+  protection the lock sets of its concurrent-phase accesses must have a common mutex.
 -/
 namespace Tcell.Model.Lockset
 
 inductive Action where
-  | lock | unlock
+  | lock (m : Nat) | unlock (m : Nat)
   | rd (f : Nat) | wr (f : Nat)
   | emit (b : Nat)
 deriving DecidableEq, Repr
 
 abbrev Thread := List Action
 
+/-- the screen mutex (the embedded `sync.Mutex` of tScreen): the mutex `blocks_contiguous` is about -/
+def screenMutex : Nat := 0
+
 structure TState where
-  holds : Bool
+  /-- the set of mutexes the thread holds -/
+  holds : Nat → Bool
+  /-- number of critical sections of the screen mutex the thread has entered -/
   sec : Nat
   rest : Thread
 
 structure Cfg where
   th : Nat → TState
-  /-- newest first: (thread, critical-section number of that thread, byte) -/
+  /-- newest first: (thread, screen-mutex critical-section number of that thread, byte) -/
   log : List (Nat × Nat × Nat)
 
 def upd (th : Nat → TState) (i : Nat) (s : TState) : Nat → TState := fun k => if k = i then s else th k
@@ -43,12 +53,19 @@ def upd (th : Nat → TState) (i : Nat) (s : TState) : Nat → TState := fun k =
 @[simp] theorem upd_same (th i s) : upd th i s i = s := by simp [upd]
 theorem upd_other (th i s k) (h : k ≠ i) : upd th i s k = th k := by simp [upd, h]
 
-/-- interleaving semantics: any thread whose next action is enabled may move -/
+/-- the lock set `h` with mutex `m` set to `v` -/
+def setHold (h : Nat → Bool) (m : Nat) (v : Bool) : Nat → Bool := fun k => if k = m then v else h k
+
+@[simp] theorem setHold_same (h m v) : setHold h m v m = v := by simp [setHold]
+theorem setHold_other (h m v k) (hk : k ≠ m) : setHold h m v k = h k := by simp [setHold, hk]
+
+/-- interleaving semantics: any thread whose next action is enabled may move; `lock m` is enabled when NO thread
+    (the locker included) holds `m`; other mutexes held by anybody do not matter -/
 inductive Step : Cfg → Cfg → Prop
-  | lock {c : Cfg} {i : Nat} {r : Thread} : (c.th i).rest = .lock :: r → (∀ j, (c.th j).holds = false) →
-      Step c ⟨upd c.th i ⟨true, (c.th i).sec + 1, r⟩, c.log⟩
-  | unlock {c : Cfg} {i : Nat} {r : Thread} : (c.th i).rest = .unlock :: r → (c.th i).holds = true →
-      Step c ⟨upd c.th i ⟨false, (c.th i).sec, r⟩, c.log⟩
+  | lock {c : Cfg} {i m : Nat} {r : Thread} : (c.th i).rest = .lock m :: r → (∀ j, (c.th j).holds m = false) →
+      Step c ⟨upd c.th i ⟨setHold (c.th i).holds m true, (c.th i).sec + (if m = 0 then 1 else 0), r⟩, c.log⟩
+  | unlock {c : Cfg} {i m : Nat} {r : Thread} : (c.th i).rest = .unlock m :: r → (c.th i).holds m = true →
+      Step c ⟨upd c.th i ⟨setHold (c.th i).holds m false, (c.th i).sec, r⟩, c.log⟩
   | rd {c : Cfg} {i f : Nat} {r : Thread} : (c.th i).rest = .rd f :: r →
       Step c ⟨upd c.th i ⟨(c.th i).holds, (c.th i).sec, r⟩, c.log⟩
   | wr {c : Cfg} {i f : Nat} {r : Thread} : (c.th i).rest = .wr f :: r →
@@ -60,9 +77,9 @@ inductive Reach (c0 : Cfg) : Cfg → Prop
   | refl : Reach c0 c0
   | step {c c' : Cfg} : Reach c0 c → Step c c' → Reach c0 c'
 
-/-- all threads at their first action, nobody holds the mutex, nothing written yet; thread ids beyond the list are
+/-- all threads at their first action, nobody holds any mutex, nothing written yet; thread ids beyond the list are
     idle (empty program), so one statement covers every finite number of threads -/
-def initCfg (ts : List Thread) : Cfg := ⟨fun i => ⟨false, 0, ts.getD i []⟩, []⟩
+def initCfg (ts : List Thread) : Cfg := ⟨fun i => ⟨fun _ => false, 0, ts.getD i []⟩, []⟩
 
 /-- the access thread state `s` is about to perform on field `f`: `some true` a write, `some false` a read -/
 def nextAccess (s : TState) (f : Nat) : Option Bool :=
@@ -75,21 +92,21 @@ def nextAccess (s : TState) (f : Nat) : Option Bool :=
 def Race (c : Cfg) (f : Nat) : Prop :=
   ∃ i j wi wj, i ≠ j ∧ nextAccess (c.th i) f = some wi ∧ nextAccess (c.th j) f = some wj ∧ (wi = true ∨ wj = true)
 
-/-- static lock tracking along a thread: every access to `f` is made while the thread holds the mutex
-    (`h` = does the thread hold it on entry) -/
-def Guarded (f : Nat) : Bool → Thread → Prop
+/-- static lock tracking along a thread, for ONE chosen mutex `m`: every access to `f` is made while the thread holds
+    `m` (`h` = does the thread hold `m` on entry); what the thread does with other mutexes is irrelevant -/
+def GuardedBy (m f : Nat) : Bool → Thread → Prop
   | _, [] => True
-  | _, .lock :: r => Guarded f true r
-  | _, .unlock :: r => Guarded f false r
-  | h, .rd g :: r => (g = f → h = true) ∧ Guarded f h r
-  | h, .wr g :: r => (g = f → h = true) ∧ Guarded f h r
-  | h, .emit _ :: r => Guarded f h r
+  | h, .lock k :: r => GuardedBy m f (if m = k then true else h) r
+  | h, .unlock k :: r => GuardedBy m f (if m = k then false else h) r
+  | h, .rd g :: r => (g = f → h = true) ∧ GuardedBy m f h r
+  | h, .wr g :: r => (g = f → h = true) ∧ GuardedBy m f h r
+  | h, .emit _ :: r => GuardedBy m f h r
 
-/-- every emission to the output stream is made while holding the mutex -/
+/-- every emission to the output stream is made while holding the screen mutex (mutex 0) -/
 def EmitGuarded : Bool → Thread → Prop
   | _, [] => True
-  | _, .lock :: r => EmitGuarded true r
-  | _, .unlock :: r => EmitGuarded false r
+  | h, .lock k :: r => EmitGuarded (if k = 0 then true else h) r
+  | h, .unlock k :: r => EmitGuarded (if k = 0 then false else h) r
   | h, .rd _ :: r => EmitGuarded h r
   | h, .wr _ :: r => EmitGuarded h r
   | h, .emit _ :: r => h = true ∧ EmitGuarded h r
@@ -105,15 +122,19 @@ def tags (c : Cfg) : List (Nat × Nat) := c.log.map (fun e => (e.1, e.2.1))
 
 /-! ## facts -/
 
-/-- one extracted access: entry point id, field id, write?, lock held?, concurrent phase?, after `wg.Wait`? -/
+/-- one extracted access: entry point id, field id, write?, ids of the mutexes held (ascending, numbering of
+    `Gen.LockFacts.mutexNames`), concurrent phase?, after `wg.Wait`? -/
 structure Fact where
   entry : Nat
   field : Nat
   wr : Bool
-  held : Bool
+  locks : List Nat
   conc : Bool
   noloops : Bool
 deriving DecidableEq, Repr
+
+/-- the access is made holding mutex `m` -/
+def Fact.holds (x : Fact) (m : Nat) : Bool := x.locks.contains m
 
 /-- the field is written in the concurrent phase by some entry point -/
 def concWrittenList (facts : List Fact) : List Nat := facts.filterMap fun x => if x.conc && x.wr then some x.field else none
@@ -122,7 +143,8 @@ def concWritten (facts : List Fact) (f : Nat) : Bool := (concWrittenList facts).
 
 /-- all concurrent-phase accesses of the field come from one entry point and that entry point is one of the
     library's own goroutines (kind 1; one live instance at a time: engage starts it only when not running and
-    disengage waits for it — axiomatised) -/
+    disengage waits for it — axiomatised; with fix C10-disengage-lifecycle the `lifecycle` mutex makes it true,
+    without it engine `race` reports the overlap as `race-loops-overlap`) -/
 def confinedTo (facts : List Fact) (kinds : List Nat) (f : Nat) : Bool :=
   match facts.find? (fun x => x.field == f && x.conc) with
   | none => false
@@ -135,28 +157,50 @@ def exemptField (facts : List Fact) (kinds syncs : List Nat) (f : Nat) : Bool :=
 def exemptFields (facts : List Fact) (kinds syncs : List Nat) (nFields : Nat) : List Nat :=
   (List.range nFields).filter (exemptField facts kinds syncs)
 
-/-- a fact respects the discipline: init phase, or lock held, or the field is exempt -/
-def factOk (exempt : List Nat) (x : Fact) : Bool := !x.conc || x.held || exempt.contains x.field
+/-- every concurrent-phase access of field `f` is made holding mutex `m` -/
+def guardedBy (facts : List Fact) (f m : Nat) : Bool := facts.all fun x => !(x.conc && x.field == f) || x.holds m
 
-/-- the facts violating the discipline (given the list of exempt fields), in extraction order -/
-def flaggedWith (exempt : List Nat) (facts : List Fact) : List Fact := facts.filter fun x => !factOk exempt x
+/-- some concurrent-phase access of field `f` is made holding mutex `m` -/
+def heldBySome (facts : List Fact) (f m : Nat) : Bool := facts.any fun x => x.conc && x.field == f && x.holds m
+
+/-- a mutex in the INTERSECTION of the lock sets of all concurrent-phase accesses of `f` (the lowest-numbered one) -/
+def commonGuard (facts : List Fact) (nMutex f : Nat) : Option Nat := (List.range nMutex).find? (guardedBy facts f)
+
+/-- the mutex the accesses of `f` are judged against: the common guard when the intersection is not empty; otherwise
+    (discipline broken on `f`) the lowest-numbered mutex that at least one access holds — the accesses that do not hold
+    it get the blame — and 0 when no access holds anything -/
+def blameGuard (facts : List Fact) (nMutex f : Nat) : Nat :=
+  match commonGuard facts nMutex f with
+  | some m => m
+  | none => ((List.range nMutex).find? (heldBySome facts f)).getD 0
+
+def guardsOf (facts : List Fact) (nMutex nFields : Nat) : List Nat := (List.range nFields).map (blameGuard facts nMutex)
+
+/-- a fact respects the discipline: init phase, or the field is exempt, or the field's guard is held -/
+def factOk (exempt guards : List Nat) (x : Fact) : Bool :=
+  !x.conc || exempt.contains x.field || x.holds (guards.getD x.field 0)
+
+/-- the facts violating the discipline (given the exempt fields and the guard of every field), in extraction order -/
+def flaggedWith (exempt guards : List Nat) (facts : List Fact) : List Fact := facts.filter fun x => !factOk exempt guards x
 
 /-- the facts violating the discipline, in extraction order -/
-def flaggedOf (facts : List Fact) (kinds syncs : List Nat) (nFields : Nat) : List Fact :=
-  flaggedWith (exemptFields facts kinds syncs nFields) facts
+def flaggedOf (facts : List Fact) (kinds syncs : List Nat) (nFields nMutex : Nat) : List Fact :=
+  flaggedWith (exemptFields facts kinds syncs nFields) (guardsOf facts nMutex nFields) facts
 
-/-- the (field, write?, held?) accesses of a thread under static lock tracking -/
-def accessesOf : Bool → Thread → List (Nat × Bool × Bool)
+/-- the (field, write?, lock set) accesses of a thread under static lock tracking -/
+def accessesOf : (Nat → Bool) → Thread → List (Nat × Bool × (Nat → Bool))
   | _, [] => []
-  | _, .lock :: r => accessesOf true r
-  | _, .unlock :: r => accessesOf false r
+  | h, .lock k :: r => accessesOf (setHold h k true) r
+  | h, .unlock k :: r => accessesOf (setHold h k false) r
   | h, .rd g :: r => (g, false, h) :: accessesOf h r
   | h, .wr g :: r => (g, true, h) :: accessesOf h r
   | h, .emit _ :: r => accessesOf h r
 
-/-- thread `t` is an execution path of entry point `e` as far as the facts are concerned: each of its accesses,
-    with the lock state static tracking gives it, is one of the concurrent-phase facts extracted for `e` -/
+/-- thread `t` is an execution path of entry point `e` as far as the facts are concerned: each of its accesses is
+    one of the concurrent-phase facts extracted for `e` (same field, same direction) and the thread holds, under
+    static tracking, at least the mutexes that fact records -/
 def Conforms (facts : List Fact) (e : Nat) (t : Thread) : Prop :=
-  ∀ a ∈ accessesOf false t, ∃ nl, (⟨e, a.1, a.2.1, a.2.2, true, nl⟩ : Fact) ∈ facts
+  ∀ a ∈ accessesOf (fun _ => false) t, ∃ x ∈ facts, x.entry = e ∧ x.field = a.1 ∧ x.wr = a.2.1 ∧ x.conc = true ∧
+    ∀ k ∈ x.locks, a.2.2 k = true
 
 end Tcell.Model.Lockset
